@@ -145,7 +145,7 @@ class Ctx:
     def build(self, name, srcs, dispenso=(), flags=(), libs=(), sanitize=False, opt='-O1'):
         """Compile harness sources + the listed dispenso .cpp files from REPO's working tree.
         Objects are cached by the sha1 of the command line and of every dependency's content."""
-        variant = 'san' if sanitize else 'std'
+        variant = 'tsan' if sanitize == 'thread' else ('san' if sanitize else 'std')
         objdir = os.path.join(BUILD, 'obj', variant, name)
         os.makedirs(objdir, exist_ok=True)
         lock = open(os.path.join(BUILD, '.lock'), 'w')
@@ -154,7 +154,9 @@ class Ctx:
             base = ['g++', '-std=c++14', opt, '-g', '-fno-access-control', '-DDISPENSO_VERIF', '-DNDEBUG',
                     '-pthread', '-I' + REPO, '-I' + os.path.join(REPO, 'dispenso/third-party'), '-I' + os.path.join(REPO, 'dispenso/third-party/moodycamel'),
                     '-I' + os.path.join(ROOT, 'harness')]
-            if sanitize:
+            if sanitize == 'thread':
+                base += ['-fsanitize=thread', '-fno-omit-frame-pointer']
+            elif sanitize:
                 base += ['-fsanitize=address,undefined', '-fno-omit-frame-pointer',
                          '-fno-sanitize-recover=undefined']
             base += list(flags)
@@ -192,7 +194,7 @@ class Ctx:
             os.makedirs(exedir, exist_ok=True)
             exe = os.path.join(exedir, name)
             link = ['g++', '-o', exe] + objs + ['-pthread'] + \
-                (['-fsanitize=address,undefined'] if sanitize else []) + list(libs)
+                (['-fsanitize=thread'] if sanitize == 'thread' else (['-fsanitize=address,undefined'] if sanitize else [])) + list(libs)
             if True:  # always relink (cheap); objects may have been rebuilt by another driver
                 p = subprocess.run(link, stdout=subprocess.PIPE, stderr=subprocess.STDOUT, text=True)
                 if p.returncode != 0:
@@ -550,6 +552,8 @@ def main(argv):
         log('ERROR property=%s %s' % (prop, str(e)[:6000]))
         ctx.errors.append(str(e)[:2000])
         ctx.cov['tool_error'] = str(e)[:2000]
-        ctx.finish()
-        return 2
+        rc = ctx.finish()
+        # a violation that was already reported stands (typically a crashed driver, whose truncated trace then
+        # trips the validator): exit 1; a tool error without any violation is exit 2 (the check did not decide)
+        return 1 if rc == 1 else 2
     return ctx.finish()
